@@ -234,6 +234,29 @@ func (rn *runner) modfCase(d *apd.Decimal, which int) {
 	})
 }
 
+// f64Case: Decimal.Float64 must return the float64 nearest to the decimal value (reference: math/big.Rat).
+func (rn *runner) f64Case(d *apd.Decimal) {
+	rn.rawCase("f64", showDec(d), true, "f64", func() string {
+		got, err := new(apd.Decimal).Set(d).Float64()
+		r, ok := new(big.Rat).SetString(d.Text('E'))
+		if !ok {
+			return "noref"
+		}
+		want, _ := r.Float64()
+		if err != nil {
+			// strconv reports a range error for values that overflow float64; the value is still +-Inf
+			if got == want {
+				return "same"
+			}
+			return "err"
+		}
+		if got == want || (got != got && want != want) {
+			return "same"
+		}
+		return fmt.Sprintf("differs:%v:%v", got, want)
+	})
+}
+
 func (rn *runner) streamConv(g *gen) {
 	maxI := new(big.Int).SetInt64(1<<63 - 1)
 	minI := new(big.Int).Neg(new(big.Int).Lsh(big.NewInt(1), 63))
@@ -299,5 +322,15 @@ func (rn *runner) streamConv(g *gen) {
 			m = d
 		}
 		rn.modfCase(m, g.r.Intn(3))
+		// Float64 of decimals with up to 20 digits and moderate exponents (incl. 16-digit coefficients above 2^53)
+		nd := 1 + g.r.Intn(20)
+		if g.r.Intn(3) == 0 {
+			nd = 16
+		}
+		fd := decFromBig(g.coeff(nd), int64(g.r.Intn(61)-30), g.r.Intn(2) == 0)
+		if g.r.Intn(3) == 0 {
+			fd.Exponent = int32(g.r.Intn(700) - 350)
+		}
+		rn.f64Case(fd)
 	}
 }
